@@ -112,8 +112,24 @@ def r2_grid(ctx, repo):
             ok_levels = None if eq is None else bool(eq)
             detail = "k levels lo + i*(hi-lo)/(k-1), i in [0,k)" if ok_levels else "level %s is not lo + i*(hi-lo)/(k-1)" % text(e)
         elif rb:
-            ok_levels = False
-            detail = "levels generated over range(%s), not range(k)" % ", ".join(text(x) for x in rb if x is not None)
+            same = (rb[0] is None or text(rb[0]) == "0") and rb[2] is None and poly.equal(rb[1], poly.parse(selfn + ".number"))
+            trunc = any(isinstance(x, ast.Call) and access_path(x.func) in ("int", "math.floor", "np.floor", "math.trunc") and x.args
+                        and any(isinstance(y, ast.BinOp) and isinstance(y.op, (ast.Div, ast.FloorDiv)) for y in ast.walk(x.args[0])) for x in ast.walk(rb[1]))
+            if same:
+                want = poly.parse("{p}['bounds'][0] + {i} * ({p}['bounds'][1] - {p}['bounds'][0]) / ({s}.number - 1)".format(p=pv, i=i, s=selfn))
+                eq = poly.equal(e, want)
+                ok_levels = None if eq is None else bool(eq)
+                detail = "k levels lo + i*(hi-lo)/(k-1), i in [0,k)" if ok_levels else "level %s is not lo + i*(hi-lo)/(k-1)" % text(e)
+            elif trunc:
+                ok_levels = False
+                detail = ("the number of levels is %s: a truncated floating-point quotient, which is one short whenever the division lands just below an integer "
+                          "((hi-lo)/((hi-lo)/(k-1)) < k-1 for some bounds), so the upper bound is dropped and the grid has fewer than k^n points" % text(rb[1]))
+            elif (rb[0] is not None and text(rb[0]) != "0") or rb[2] is not None or poly.equal(rb[1], poly.parse(selfn + ".number")) is False:
+                ok_levels = False
+                detail = "levels generated over range(%s), not range(k)" % ", ".join(text(x) for x in rb if x is not None)
+            else:
+                ok_levels = None
+                detail = "number of levels %s not recognised" % text(rb[1])
     ctx.check3(ok_levels, "R2", C, where(cls.module, pl), detail, detail, detail, key="levels")
     # full Cartesian product of the columns, every combination once
     rts = [T.expand(st_.value, at=st_, skip=(cols,) if cols else ()) for st_, t in T.returns if t is not None]
@@ -136,7 +152,7 @@ def r2_grid(ctx, repo):
                 okp = len(it.args) == 1 and isinstance(it.args[0], ast.Starred) and not it.keywords and (
                     access_path(it.args[0].value) == cols or (cols_term is not None and text(it.args[0].value) == text(cols_term)))
                 one_each = not g.ifs and text(rt.elt) in ("list(%s)" % v, v, "[*%s]" % v)
-                state = bool(fresh and okp and one_each)
+                state = True if (fresh and okp and one_each) else (None if (okp and one_each) else False)
                 why = "the result is not the full Cartesian product of the per-parameter level columns (fresh column per parameter=%s, product(*columns)=%s, every combination once=%s)" % (fresh, okp, one_each)
     ctx.check3(state, "R2", C, where(cls.module, fn), "one level column per parameter, full Cartesian product, every combination appended once", why, why, key="product")
 
